@@ -295,8 +295,13 @@ def schema_rules(ctx, only=None):
         by_key[(r['fn'], r['form'])] = r
     seen = set()
     if only is not None:
-        rows = [r for r in rows if r['fn'] in only]
-        by_key = {k: v for k, v in by_key.items() if k[0] in only}
+        # `only`: set of function paths, or {function path: regex over the form label (None = all forms)}
+        sel = only if isinstance(only, dict) else {f: None for f in only}
+
+        def keep(fn, form):
+            return fn in sel and (sel[fn] is None or re.search(sel[fn], form) is not None)
+        rows = [r for r in rows if keep(r['fn'], r['form'])]
+        by_key = {k: v for k, v in by_key.items() if keep(k[0], k[1])}
     for r in rows:
         key = (r['fn'], r['form'])
         short_fn = r['fn'].split('::')[-2].replace('<impl ast::', '').replace('>', '') + '::' + r['fn'].split('::')[-1] if 'impl' in r['fn'] else r['fn'].split('::')[-1]
@@ -354,7 +359,7 @@ def check(ctx):
     binding.r_tags(ctx, 'R01.8')
     from . import c08, c09
     c07_ = __import__('sa.props.c07', fromlist=['x'])
-    c07_.r_layout_tables(ctx, 'R01.11')
+    c07_.r_layout_tables(ctx, 'R01.11', c07_.LAYOUT_CONSTRUCT, 20)
     c08.r_equations(ctx)
     c08.r_wiring(ctx)
     c09.r_equations(ctx)
@@ -362,7 +367,7 @@ def check(ctx):
     # constants: the value a literal denotes and its structural encoding (shared with C07 / C11)
     from . import c07, c11
     from .. import guards
-    c07.r_uint_tables(ctx)
+    c07.r_uint_tables(ctx, only=c07.UINT_KEYS - {'as_integer:shifts'})   # the destructor table belongs to C07/C14
     c07.r_sum_leaves(ctx)
     c07.r_value_to_structural(ctx, 'R01.9')
     ctx.rule('R01.9', 'constants: literal converters and Value -> StructuralValue build the structural value of the written literal (decision tables + constructor tables)')
